@@ -186,3 +186,23 @@ benign('C05', 'wrap passes vects matrix', SYS, "        origin = self.box.origin
        "        origin = self.box.origin + mins.dot(self.box.vects)\n        vects = self.box.vects * (maxs - mins)[:, np.newaxis]\n        self.box_set(vects=vects, origin=origin)")
 benign('C05', 'wrap subtracts flags explicitly', SYS, '        spos -= imageflags', '        spos = spos - imageflags')
 benign('C05', 'normalize handedness via triple product order', NRM, 'if np.dot(np.cross(system.box.avect, system.box.bvect), system.box.cvect) < 0:', 'if np.dot(system.box.avect, np.cross(system.box.bvect, system.box.cvect)) < 0:')
+
+# ------------------------------------------------------------------ C06
+AT = 'atomman/core/Atoms.py'
+mutant('C06', 'regress-F3 atoms_extend rows', SYS, 'atoms.pos[self.natoms:] = self.box.position_relative_to_cartesian(value.pos)', 'atoms.pos[value.natoms:] = self.box.position_relative_to_cartesian(value.pos)', 'ROW-ALIGN')
+mutant('C06', 'prop indexed read returns view', AT, '                    return deepcopy(self.view[key][index])', '                    return self.view[key][index]', 'COPY')
+mutant('C06', 'prop whole read returns storage', AT, '                    return deepcopy(self.view[key])', '                    return self.view[key]', 'COPY')
+mutant('C06', 'prop stores caller array', AT, '                    self.view[key] = deepcopy(value)', '                    self.view[key] = value', 'COPY')
+mutant('C06', 'extend drops defaults', AT, "        for prop in newatoms.prop():\n            if prop in atoms.prop():\n                newatoms.view[prop][self.natoms:] = atoms.view[prop]\n            else:\n                newatoms.view[prop][self.natoms:] = np.zeros((natoms, ) + self.view[prop][0].shape, dtype=self.view[prop][0].dtype)",
+       "        for prop in atoms.prop():\n            newatoms.view[prop][self.natoms:] = atoms.view[prop]", 'ROW-ALIGN')
+mutant('C06', 'extend writes appended rows one early', AT, '                newatoms.view[prop][self.natoms:] = atoms.view[prop]', '                newatoms.view[prop][self.natoms-1:-1] = atoms.view[prop]', 'ROW-ALIGN')
+mutant('C06', 'shape guard accepts wrong row count', AT, "            elif value.shape[0] != host.natoms:\n                raise ValueError('First dimension of value must be 1 or natoms')", "", 'RECT-GUARD')
+mutant('C06', 'atype guard dropped', AT, "            if key == 'atype' and len(value) > 0 and np.min(value) < 1:\n                raise ValueError('atype values must be >= 1')", "", 'RECT-GUARD')
+mutant('C06', 'raw dict update bypasses guard', AT, "        for key in self.view.keys():\n            self.view[key][index] = value.view[key]", "        self.view.update({key: value.view[key] for key in self.view.keys()})", 'RECT-GUARD')
+mutant('C06', 'masses getter bound differs from setter', SYS, "        if len(self.__masses) < self.natypes:\n            self.masses = self.__masses", "        if len(self.__masses) < self.__atoms.natypes:\n            self.masses = self.__masses", 'TYPE-LISTS')
+mutant('C06', 'masses overflow accepted', SYS, "        elif len(value) > self.natypes:\n            raise ValueError('More masses than atom types given. Either change atype values or symbols first.')", "", 'TYPE-LISTS')
+mutant('C06', 'intslice drops -1 case', AT, "        if intnum == -1:\n            return slice(intnum, None)\n        else:\n            return slice(intnum, intnum+1)", "        return slice(intnum, intnum+1)", 'INDEXING')
+mutant('C06', 'getitem mutates operand dtype', AT, "        for key in self.view.keys():\n            view[key] = self.view[key][index]\n        return Atoms(**view)", "        for key in self.view.keys():\n            self.view[key][:] = self.view[key]\n            view[key] = self.view[key][index]\n        return Atoms(**view)", 'PRESERVE')
+mutant('C06', 'atoms_df scales in place', SYS, "            if key in scale:\n                value = self.box.position_cartesian_to_relative(value)", "            if key in scale:\n                value[:] = self.box.position_cartesian_to_relative(value)", 'PRESERVE')
+benign('C06', 'prop copies via np.array', AT, '                    return deepcopy(self.view[key][index])', '                    return np.array(self.view[key][index])')
+benign('C06', 'extend zeros via zeros_like rows', AT, "newatoms.view[prop][self.natoms:] = np.zeros((natoms, ) + self.view[prop][0].shape, dtype=self.view[prop][0].dtype)", "newatoms.view[prop][self.natoms:] = 0")
